@@ -18,18 +18,34 @@ def make_cases(tier, seed):
 
 
 def post(ctx, d):
-    if ctx.tier != "thorough":
-        return None, dict(tcp_sample="thorough tier only")
-    failing, cov = ttllib.tcp_sample(ctx, d, PID, gen_sel.gen_tcp(ctx.seed, 60))
+    """concurrent first-SELECT scenario (quick: through Manager.Handle; thorough: also over TCP), then
+    the sequential TCP sample (thorough)"""
+    cov = {}
+    n = 40 if ctx.tier == "quick" else 400
+    failing, c1 = ttllib.race_sample(ctx, d, PID, gen_sel.gen_race(ctx.seed, n), "handle")
+    cov.update(c1)
+    if not failing and ctx.tier == "thorough":
+        failing, c2 = ttllib.race_sample(ctx, d, PID, gen_sel.gen_race(ctx.seed + 7, 60), "tcp")
+        cov.update(c2)
+    if not failing and ctx.tier == "thorough":
+        failing, c3 = ttllib.tcp_sample(ctx, d, PID, gen_sel.gen_tcp(ctx.seed, 60))
+        cov.update(c3)
+    elif ctx.tier != "thorough":
+        cov["tcp_sample"] = "thorough tier only"
     if failing:
         lib.violation(PID, failing)
         ctx.violations += 1
-        return "TCP sample disagrees with the model (replay written above)", cov
+        return None, cov      # the violation line is already printed; run() turns it into exit 1
     return None, cov
 
 
 def run(ctx):
-    return memlib.run_family(
+    if ctx.replay:
+        import json
+        r = json.load(open(ctx.replay))
+        if r.get("race_line"):
+            return ttllib.race_replay(ctx, lib.scratch("c20-"), r)
+    rc = memlib.run_family(
         ctx, PID, make_cases, runner=ttllib.memx_runner("handle"),
         rule="database counts 1, 2, 16; every database holds a marker key with its own index so GET reveals the real selection; "
              "(a) isolation: string/list key with deadline written in database i by one connection, probed (GET/EXISTS/TYPE/TTL/KEYS/"
@@ -38,10 +54,13 @@ def run(ctx):
              "full-width digit, bare sign), the borderline forms Go accepts (00, 01, +1, +0, -0), arities 0/2/3, each followed by "
              "GET whoami on the issuing and on another connection; (c) seeded random interleavings of 1-5 connections mixing SELECT "
              "(valid/invalid/borderline) with string/list/key commands and sleeps, dumps of all databases; thorough: (d) the same over "
-             "real TCP connections against server.Start",
+             "real TCP connections against server.Start; (e) concurrency: N = 8-16 connections through Manager.Handle, released by a barrier, "
+             "first-SELECT the same never-used index at the same instant on a fresh server (default ShardNum 1024), write one key each, then "
+             "every connection and a late one read every key (quick: 40 servers, 2/3/16 databases, every index > 0; thorough: 400 + 60 over TCP)",
         extra_tb=["connections: mode handle drives server.Manager.Handle over net.Pipe (per-connection state is whatever Handle "
                   "keeps); the accept loop of server.Start is exercised only by the TCP sample (thorough)"],
         extra_cov=dict(db_counts=gen_sel.DBCOUNTS, invalid_args=len(gen_sel.INVALID_ARGS), borderline_args=len(gen_sel.BORDERLINE_ARGS),
                        correspondence="server.Manager.Handle over net.Pipe, one per connection id (REPO working tree, -tags verif,faketime) "
                                       "vs extracted srv_exec: every reply and every keyspace dump of every database compared"),
         post=post)
+    return 1 if ctx.violations else rc
